@@ -716,3 +716,27 @@ def np_randomstate(m, args, kw, node):
 
 
 EXTERNAL["numpy.random.mtrand.RandomState"] = np_randomstate
+
+
+@ext("json.dumps", "serialises its argument to one line of text (opaque string); the argument is recorded")
+def json_dumps(m, args, kw, node):
+    x = m.snapshot(m.force(args[0], node))
+    r = m.fresh_scalar("str", "json")
+    m.output_log.append(("json.dumps", x, r))
+    if getattr(m, "json_raises", False) and m.choose(2) == 1:
+        raise PyRaise("TypeError", node)
+    return r
+
+
+@ext("sys.getsizeof", "size of an object in bytes: an unknown but deterministic function of the object")
+def sys_getsizeof(m, args, kw, node):
+    x = m.force(args[0], node)
+    if isinstance(x, Sym) and x.k == "str":
+        f = z3.Function("uf_sizeof", z3.IntSort(), z3.IntSort())
+        return Sym(f(x.t), "int")
+    return m.fresh_scalar("int", "sizeof")
+
+
+@ext("sys.stdout.flush", "no effect on program state")
+def sys_flush(m, args, kw, node):
+    return None
